@@ -429,6 +429,7 @@ func VerifyBatch(rand io.Reader, publicKeys []PublicKey, messages, sigs [][]byte
 
 		// fallback
 		if !batchOk {
+			verifFallback(offset, batchSize)
 			for i := 0; i < batchSize; i++ {
 				// If the signature is already tagged as invalid (s was out
 				// of range according to the IETF, inputs were malformed,
